@@ -773,7 +773,7 @@ func TestC37(t *testing.T) {
 		"plain forms are resolved against the action's working directory, out_ forms against the repository root (a literal baked into the command), absolute words as they are",
 	}
 	bin := lib.PlzBin(false)
-	n := r.Pick(30, 2400)
+	n := r.Pick(24, 600)
 	r.ForEach("repo", n, 8, func(i int, rng *rand.Rand) {
 		sb := e2e.NewSandbox(filepath.Join(r.Scratch(), fmt.Sprintf("r%d", i)))
 		defer lib.RemoveAll(sb.Work)
